@@ -30,7 +30,9 @@ func (o SortOrder) Fields() (fields []string) {
 
 func (o SortOrder) Copy() SortOrder {
 	rv := make(SortOrder, len(o))
-	copy(rv, o)
+	for i, s := range o {
+		rv[i] = s.copy()
+	}
 	return rv
 }
 
@@ -79,18 +81,29 @@ type SortValue [][]byte
 
 type Sort struct {
 	source       TextValueSource
+	primary      TextValueSource
 	desc         bool
 	missingFirst bool
 }
 
 func SortBy(source TextValueSource) *Sort {
-	rv := &Sort{}
+	rv := &Sort{primary: source}
 
 	rv.source = MissingTextValue(source, &sortFirstLast{
 		desc:  &rv.desc,
 		first: &rv.missingFirst,
 	})
 
+	return rv
+}
+
+// copy returns an independent Sort, so that reversing a copied SortOrder
+// leaves the original untouched (the missing value replacement refers to
+// the flags of the Sort it was built for, hence it is rebuilt)
+func (s *Sort) copy() *Sort {
+	rv := SortBy(s.primary)
+	rv.desc = s.desc
+	rv.missingFirst = s.missingFirst
 	return rv
 }
 
